@@ -88,3 +88,10 @@ REG["C17"] = {
                    "domains with 1..3 ghost cells and both species sources; every written cell is compared with the checkpoint's interior value (exact; 1e-14 relative for floored mass fractions)."),
     "level_note": _NOTE + " The synthetic checkpoint writer follows the format of test_assets/example_chk_3d.",
 }
+
+REG["C14"] = {
+    "technique": "TLC model checking of Kitchen.tla (directory map, Invoke actions for colander/combine/chef, symbolic per-field terms; invariants AllValidInputs, NothingOverwritten, lemmas strain-all = identity and cook-then-combine adds one field) over all histories up to the bound + execution of every emitted history with the real tools, the real validator after every hop, every box compared with its term's value",
+    "level_text": ("All histories of length <=2 (thorough: <=3 exhaustively, 4 by TLC simulation) over the three writers with small argument sets, starting from two generated plotfiles on a common 2-level mesh with independent scattered layouts, "
+                   "are enumerated by TLC and executed; each intermediate directory must be well-formed (independent parser), accepted by the real taste, carry the mesh/time/geometry of the source and hold bit-exactly the composed pure operations."),
+    "level_note": _NOTE,
+}
